@@ -6,6 +6,7 @@ import (
 	"flag"
 	"fmt"
 	"os"
+	"runtime/debug"
 	"sort"
 	"strings"
 
@@ -90,6 +91,9 @@ func run(prop string, ck checks.Check, cfg load.Config, tier string, noEv bool) 
 	defer func() {
 		if x := recover(); x != nil {
 			r.Fatal = fmt.Sprintf("analyzer panic: %v", x)
+			if os.Getenv("VERIF_DEBUG") != "" {
+				debug.PrintStack()
+			}
 			code = r.Finish()
 			if code == 0 {
 				code = 1
